@@ -181,6 +181,31 @@ func TestC10(t *testing.T) {
 			}
 		}
 	}
+	// one hash named twice with different sizes (presence depends on hash AND size):
+	// every ordered pair of {stored size, size+1, size-1} at every position, adjacent and
+	// 2 / 19 / 20 / 21 apart (inside one internal batch and across two)
+	smaller := func(i int) c10Digest {
+		return c10Digest{d: &pb.Digest{Hash: present[i].d.Hash, SizeBytes: present[i].d.SizeBytes - 1}, missing: true, what: "t"}
+	}
+	for _, gap := range []int{1, 2, 19, 20, 21} {
+		for pos := 0; pos+gap < 45; pos++ {
+			if gap != 1 && pos%3 != 0 && !vlib.Thorough() {
+				continue
+			}
+			forms := []c10Digest{present[pos], wrongSize(pos), smaller(pos)}
+			for a := range forms {
+				for b := range forms {
+					if a == b {
+						continue
+					}
+					l := make([]c10Digest, 45)
+					copy(l, present[:45])
+					l[pos], l[pos+gap] = forms[a], forms[b]
+					c10Call(rep, f, cfg, fmt.Sprintf("same-hash-two-sizes gap=%d", gap), l)
+				}
+			}
+		}
+	}
 	for _, p := range f.takePanics() {
 		rep.Violate("C14 handler panic during C10", p, nil)
 	}
@@ -254,6 +279,21 @@ func TestC10Backend(t *testing.T) {
 				c /= len(classes)
 			}
 			c10Call(rep, f, cfg, fmt.Sprintf("backend-partition@%d", start), l)
+		}
+	}
+	// one hash twice with two sizes, where the right size is local-only / backend-only
+	for _, cl := range []int{0, 1} {
+		for _, gap := range []int{1, 20} {
+			for pos := 0; pos+gap < 23; pos++ {
+				right := byClass[cl][pos]
+				wrong := c10Digest{d: &pb.Digest{Hash: right.d.Hash, SizeBytes: right.d.SizeBytes + 1}, missing: true, what: strings.ToLower(right.what) + "+1"}
+				for _, order := range [][2]c10Digest{{right, wrong}, {wrong, right}} {
+					l := make([]c10Digest, 23)
+					copy(l, byClass[0][:23])
+					l[pos], l[pos+gap] = order[0], order[1]
+					c10Call(rep, f, cfg, fmt.Sprintf("backend-same-hash-two-sizes gap=%d", gap), l)
+				}
+			}
 		}
 	}
 	// homogeneous lists of every class and length 1..23
